@@ -23,9 +23,12 @@ CONSTANTS Fixes, MaxLen
 
 Queries == {"geos_over_budget", "geos_too_large", "geos_must_include", "geos_within_constraints",
             "geo_assignments", "treatment_group_size_range", "count_max_designs",
-            "treatment_groups", "control_groups"}
+            "treatment_groups", "control_groups",
+            \* a listing the caller abandons after its first element (next(generator))
+            "treatment_groups_first", "control_groups_first"}
 \* queries whose answer depends on the size ranges stored in the parameter object
-RangeDependent == {"treatment_group_size_range", "count_max_designs", "treatment_groups", "control_groups"}
+RangeDependent == {"treatment_group_size_range", "count_max_designs", "treatment_groups", "control_groups",
+                   "treatment_groups_first", "control_groups_first"}
 Searches == {"exh", "greedy"}
 
 VARIABLES last, mapped, dirty, ans, hist
